@@ -523,7 +523,8 @@ CHECKS["C10"] = {
         {"pkg": "./core/validatorapi", "harness": "VerifC10VapiSync", "params": {"m": 2, "vals": [5, 9, 6, 13]}},
         {"pkg": "./core/validatorapi", "harness": "VerifC10VapiExit", "params": {"val": [1, 2, 3]}},
         {"pkg": "./core/validatorapi", "harness": "VerifC10VapiAtt", "params": {"val": [1, 2, 3]}},
-        {"pkg": "./core/validatorapi", "harness": "VerifC10VapiSelection", "params": {"kind": [0, 1], "val": [1, 2, 3]}},
+        {"pkg": "./core/validatorapi", "harness": "VerifC10VapiSelection", "params": {"kind": [0, 1], "val": [1, 2, 3], "sparse": 0}},
+        {"pkg": "./core/validatorapi", "harness": "VerifC10VapiSelection", "params": {"kind": [0, 1], "val": 1, "sparse": 1}},
         {"pkg": "./core/validatorapi", "harness": "VerifC10VapiProposal", "params": {"val": [1, 2]}},
         {"pkg": "./core", "harness": "VerifGater", "params": {"slotdur_ms": [12000, 8192], "clockbits": 46}},
     ],
@@ -535,7 +536,7 @@ CHECKS["C10"] = {
         {"pkg": "./core/validatorapi", "harness": "VerifC10VapiSync", "params": {"m": 2, "vals": [5, 9, 6, 13]}, "cross": True},
         {"pkg": "./core/validatorapi", "harness": "VerifC10VapiExit", "params": {"val": [1, 2, 3]}, "cross": True},
         {"pkg": "./core/validatorapi", "harness": "VerifC10VapiAtt", "params": {"val": [1, 2, 3]}, "cross": True},
-        {"pkg": "./core/validatorapi", "harness": "VerifC10VapiSelection", "params": {"kind": [0, 1], "val": [1, 2, 3]}, "cross": True},
+        {"pkg": "./core/validatorapi", "harness": "VerifC10VapiSelection", "params": {"kind": [0, 1], "val": [1, 2, 3], "sparse": [0, 1]}, "cross": True},
         {"pkg": "./core/validatorapi", "harness": "VerifC10VapiProposal", "params": {"val": [1, 2]}, "cross": True},
         {"pkg": "./core", "harness": "VerifGater", "params": {"slotdur_ms": [12000, 4000], "clockbits": [46, 52]}, "timeout_ms": 900000, "case_timeout_s": 4000},
     ],
